@@ -507,3 +507,22 @@ Definition hit_wire (hops : list hdr) (q : hdr) : option (hdr * bool) :=
   | [] => None
   | st :: _ => let ad := hit_ad hops q in Some (set_ad (apply_reply st q) ad, ad)
   end.
+
+(* every byte-path producer of the cache.  Besides the entry-based ones:
+   - nxDomainCutEntry.serveWireInto + serveCutHitFromWire (RFC 8020 subtree cut): a template header
+     with no flags, ApplyReply, then SetRcode(NXDOMAIN), SetRA, SetAD; WireInfo.AuthenticatedData is
+     the constant true; serveCompositeFromWire consults the cut only for CD = 0 requests;
+   - serveFailureFromWire (RFC 9520 cached failure): a zeroed header, ApplyReply, SetRcode(SERVFAIL),
+     SetRA; WireInfo.AuthenticatedData is left false. *)
+Definition rcode_servfail : N := 2.
+Definition rcode_nxdomain : N := 3.
+Inductive producer := PEntries (hops : list hdr) | PCut | PFailure.
+Definition zero_hdr : hdr := mk_hdr 0 false 0 false false false false false false false 0.
+Definition with_rcode_ra_ad (h : hdr) (rc : N) (ad : bool) : hdr :=
+  mk_hdr (h_id h) (h_qr h) (h_opcode h) (h_aa h) (h_tc h) (h_rd h) true (h_z h) ad (h_cd h) rc.
+Definition produce (p : producer) (q : hdr) : option (hdr * bool) :=
+  match p with
+  | PEntries hops => hit_wire hops q
+  | PCut => if h_cd q then None else Some (with_rcode_ra_ad (apply_reply zero_hdr q) rcode_nxdomain true, true)
+  | PFailure => Some (with_rcode_ra_ad (apply_reply zero_hdr q) rcode_servfail false, false)
+  end.
